@@ -366,7 +366,7 @@ def gen_cases(tier, seed):
     rng = random.Random(seed)
     cases = [cu.gen_case(rng, k) for k in range(n_std)]
     rng_na = random.Random(seed * 7 + 1)
-    forced = ["alone", "cat", "mr", "catcat", "four"]
+    forced = ["alone", "cat", "mr", "catcat", "four", "ca"]
     cases += [sh.gen_numarr_case(rng_na, n_std + k, shape=forced[k] if k < len(forced) else None)
               for k in range(n_na)]
     rng_nub = random.Random(seed * 7 + 2)
@@ -414,7 +414,7 @@ def run(tier, seed):
         "CA-as-0th strands, 2-D and 3-D; optional mean/sum/stddev/median with unavailable cells and "
         "valid-count measures.  PLUS numeric arrays of 1-4 numeric items (value or none per respondent): "
         "alone (1-D), by a categorical / cat-date / datetime / text / binned variable or an MR (2-D), by "
-        "two categorical-like variables (3-D), by three grouping axes (known finding), 75% square (as many "
+        "two categorical-like variables or a categorical array (3-D), by three grouping axes (known finding), 75% square (as many "
         "valid grouping elements as items), grouping variables with and without missing elements, "
         "mean/sum/stddev/median + valid_count_unweighted (+ weighted); the 0-D nub (numeric measure over "
         "everybody, with / without count and valid-count measures); and 'typed' cubes: arrays and "
